@@ -481,6 +481,124 @@ def check_s9(rep, idx):
                               "exp(V0) exp(V1) exp(V2) reduces to  %s  in the free group; the segment ends at gb only if it is inverse(%s) * %s" % (show, ga, gb), d.file, d.line))
 
 
+# --------------------------------------------------------------------------------------------
+def check_s10(rep, idx):
+    """S10: Spline::make_local() moves the *whole* curve: with stored poses g0 = G, end_g = [G a, G a b] (global frame) the state afterwards
+    must be g0 = 1, end_g = [a, a b] -- decided by abstract execution of the body in the free group."""
+    import c14
+    rep.rule("S10", "Spline::make_local re-expresses every stored pose (m_g0 and each m_end_g[i]) relative to the old start pose", minimum=1)
+    fns = funcs(idx, "Spline::make_local")
+    if len(fns) != 1:
+        rep.broke("S10: Spline::make_local not found")
+        return
+    d = fns[0]
+    state = {"m_g0": [("G", 1)], "m_end_g": [[("G", 1), ("a", 1)], [("G", 1), ("a", 1), ("b", 1)]]}
+    loc = {}
+
+    def gv(e, it=None):
+        if member_of_this(e) == "m_g0":
+            return list(state["m_g0"])
+        if e[0] == "ref":
+            if it is not None and e[1] == it[0]:
+                return list(state["m_end_g"][it[1]])
+            if e[1] in loc:
+                return list(loc[e[1]])
+            raise c14.FGErr("unknown group variable %s" % e[1])
+        if e[0] == "sub" and member_of_this(e[1]) == "m_end_g" and len(e[2]) == 1:
+            if it is not None and e[2][0][0] == "ref" and e[2][0][1] == it[0]:
+                return list(state["m_end_g"][it[1]])
+            if e[2][0][0] == "num":
+                return list(state["m_end_g"][int(e[2][0][1])])
+        if e[0] == "call":
+            f = str(e[1]).split("::")[-1].split("<")[0]
+            if f == "Identity":
+                return []
+            if f == "composition":
+                out = []
+                for a in e[2]:
+                    out += gv(a, it)
+                return c14.fg_reduce(out)
+            if f == "inverse" and len(e[2]) == 1:
+                return c14.fg_inv(gv(e[2][0], it))
+        if e[0] == "mcall" and e[2] == "inverse" and not e[4]:
+            return c14.fg_inv(gv(e[1], it))
+        if e[0] == "op" and e[1] == "*":
+            return c14.fg_reduce(gv(e[2], it) + gv(e[3], it))
+        if e[0] == "ctor" and len(e[2]) == 1:
+            return gv(e[2][0], it)
+        raise c14.FGErr("group expression %s" % A.show(e)[:50])
+
+    def assign(e, it=None):
+        tgt, rhs = e[2], e[3]
+        v = gv(rhs, it)
+        if member_of_this(tgt) == "m_g0":
+            state["m_g0"] = v
+        elif it is not None and ((tgt[0] == "ref" and tgt[1] == it[0]) or (tgt[0] == "sub" and member_of_this(tgt[1]) == "m_end_g" and tgt[2][0][:2] == ("ref", it[0]))):
+            state["m_end_g"][it[1]] = v
+        elif tgt[0] == "ref":
+            loc[tgt[1]] = v
+        else:
+            raise c14.FGErr("assignment target %s" % A.show(tgt)[:40])
+
+    def run(stmts, it=None):
+        for st in stmts:
+            k = st.get("kind")
+            if k == "DeclStmt":
+                for v in A.kids(st):
+                    if v.get("kind") == "VarDecl" and A.kids(v):
+                        try:
+                            loc[v.get("name")] = gv(A.to_expr(A.kids(v)[-1]), it)
+                        except c14.FGErr:
+                            pass          # counters, sizes
+            elif k in ("BinaryOperator", "CXXOperatorCallExpr", "ExprWithCleanups"):
+                e = A.to_expr(st)
+                if e[0] == "op" and e[1] == "=":
+                    assign(e, it)
+                else:
+                    raise c14.FGErr("statement %s" % A.show(e)[:50])
+            elif k == "CompoundStmt":
+                run(A.kids(st), it)
+            elif k == "CXXForRangeStmt":
+                ks = A.kids(st)
+                rng = next((A.to_expr(A.kids(v)[-1]) for c in ks if c.get("kind") == "DeclStmt" for v in A.kids(c)
+                            if (v.get("name") or "").startswith("__range") and A.kids(v)), None)
+                var = next((v.get("name") for c in ks if c.get("kind") == "DeclStmt" for v in A.kids(c)
+                            if v.get("kind") == "VarDecl" and not (v.get("name") or "").startswith("__")), None)
+                if rng is None or member_of_this(rng) != "m_end_g" or var is None:
+                    raise c14.FGErr("range-for over %s" % (A.show(rng)[:30] if rng else "?"))
+                for i in range(len(state["m_end_g"])):
+                    run([ks[-1]], (var, i))
+            elif k == "ForStmt":
+                ks = A.kids(st)
+                var = next((v.get("name") for v in A.kids(ks[0]) if v.get("kind") == "VarDecl"), None) if ks[0].get("kind") == "DeclStmt" else None
+                cnd = A.ntext(ks[2])
+                if var is None or "m_end_g.size()" not in cnd and "size()" not in cnd:
+                    raise c14.FGErr("loop %s" % cnd[:40])
+                for i in range(len(state["m_end_g"])):
+                    run([ks[4]], (var, i))
+            elif k in ("NullStmt",):
+                pass
+            else:
+                raise c14.FGErr("statement kind %s" % k)
+    try:
+        run(A.kids(A.body(d.node)))
+    except c14.FGErr as ex:
+        rep.broke("S10: cannot interpret Spline::make_local: %s" % ex)
+        return
+    want = {"m_g0": [], "m_end_g": [[("a", 1)], [("a", 1), ("b", 1)]]}
+    ok = state == want
+
+    def show(w):
+        return " ".join("%s%s" % (s_, "" if e_ == 1 else "^-1") for s_, e_ in w) or "1"
+    rep.instance("S10", "Spline::make_local", "frame", ok=ok, sample={"file": fe.rel(d.file), "line": d.line, "g0": show(state["m_g0"]), "end_g": [show(w) for w in state["m_end_g"]]})
+    if not ok:
+        rep.violation(Finding("S10", "Spline::make_local", "frame",
+                              "for a two-segment spline with start pose G and knot poses [G a, G a b], make_local() leaves start = %s, knot poses = [%s]; "
+                              "moving the start to the identity requires start = 1, knot poses = [a, a b] (every stored pose multiplied by G^-1 from the left), "
+                              "otherwise the curve jumps at the first knot and end() is wrong" % (show(state["m_g0"]), ", ".join(show(w) for w in state["m_end_g"])),
+                              d.file, d.line))
+
+
 def pe_frac(e, env):
     t = e[0]
     if t == "num":
